@@ -32,6 +32,11 @@ impl<H> View for VxStrMap<H> {
 
 impl<H> VxStrMap<H> {
     #[verifier::external_body]
+    pub fn new() -> (r: Self)
+        ensures r@ == Map::<Seq<char>, H>::empty(),
+    { VxStrMap { inner: std::collections::HashMap::new() } }
+
+    #[verifier::external_body]
     pub fn get(&self, k: &str) -> (r: Option<&H>)
         ensures r is Some <==> self@.contains_key(k@), r is Some ==> *r.unwrap() == self@[k@],
     { self.inner.get(k) }
@@ -258,6 +263,26 @@ pub open spec fn temp_letter(t: Type) -> char {
                     ('no_cascade', 'Self::cascade_free() ==> final(self).view_store() == old(self).view_store() && final(self).view_idmap() == old(self).view_idmap()')]),
     ]
     return callbacks
+
+
+def emit_idmap_ctor(u, P):
+    """IdMap::{default, new, with_resolve_temp_ids, set_resolve_temp_ids}: a fresh id map is empty"""
+    EMPTY = 'r.data@ == Map::<Seq<char>, HandleType>::empty()'
+    u.impl(ST, 'impl<HandleType> Default for IdMap<HandleType>', [
+        Fn('default', props=P, ret='r', rewrites=[('R-opaque', r'HashMap::new\(\)', 'VxStrMap::new()')],
+           ensures=[('empty', EMPTY), ('temp_ids', 'r.resolve_temp_ids')]),
+    ], verus_header='impl<HandleType: Handle> Default for IdMap<HandleType>')
+    u.impl(ST, 'impl<HandleType> IdMap<HandleType>', [
+        Fn('new', props=P, ret='r', ensures=[('empty', EMPTY), ('temp_ids', 'r.resolve_temp_ids')]),
+        Fn('with_resolve_temp_ids', props=P, ret='r', sig_rewrites=[('R-mutself', r'\bmut self\b', 'self')],
+           rewrites=[('R-mutself', r'\bself\b', 'vx_self')], prologue='let mut vx_self = self;',
+           ensures=[('data', 'r.data@ == self.data@'), ('flag', 'r.resolve_temp_ids == value')]),
+        Fn('set_resolve_temp_ids', props=P,
+           ensures=[('data', 'final(self).data@ == old(self).data@'), ('flag', 'final(self).resolve_temp_ids == value')]),
+    ], verus_header='impl<HandleType: Handle> IdMap<HandleType>')
+    u.impl('src/config.rs', 'impl Config', [
+        Fn('strip_temp_ids', props=P, ret='r', ensures=[('field', 'r == self.strip_temp_ids')]),
+    ])
 
 
 def emit_storefor(u, P):
